@@ -2,5 +2,5 @@ SPECIFICATION Spec
 CONSTANTS
   Ks = {1, 2, 3, 7, 50, 1000}
   MaxRep = 3
-INVARIANTS TypeOK CompleteIsValid ForcedNeedsCollector ConcreteFaithful BaselineValid DiffSound
+INVARIANTS TypeOK CompleteIsValid ForcedNeedsCollector ConcreteFaithful BaselineValid DiffSound StarCovers MachineInSpace
 CHECK_DEADLOCK FALSE
